@@ -88,6 +88,14 @@ def boundary_docs():
     state leaking from one parse into the next (all lines of a stream run on one thread of one process) shows up."""
     limit = lib.XML_CONSTS.get("MAX_ELEMENT_DEPTH")
     if not limit:
+        # the translator did not get that far (source shape changed): read the constant directly
+        import re
+        try:
+            m = re.search(r"const MAX_ELEMENT_DEPTH: usize = (\d+);", open(os.path.join(lib.REPO, "parser/src/lib.rs")).read())
+            limit = int(m.group(1)) if m else None
+        except OSError:
+            limit = None
+    if not limit:
         return []
     def nest(n, inner):
         it = ("E", "a", [], inner)
@@ -97,3 +105,13 @@ def boundary_docs():
     st = xmlgen.Style(None, canonical=True)
     docs = [nest(limit, [("t", "x")]), nest(limit, [("t", "x")]), nest(limit - 1, []), nest(limit, [("t", "y")]), nest(1, [])]
     return [(d, [xmlgen.render(d, st)]) for d in docs]
+
+
+# documents whose character data / attribute values come out of entity expansion (property C01: "character data after
+# reference expansion"): (text, expected string(/*), expected string(/*/@t)) by XML 1.0 4.4 / 3.3.3
+EXPANSION_DOCS = [
+    ('<!DOCTYPE r [<!ENTITY b "x"><!ENTITY a "&b;-&b;">]><r t="&a;">&a;</r>', "x-x", "x-x"),
+    ('<!DOCTYPE r [<!ENTITY c "y"><!ENTITY b "&c;"><!ENTITY a "&b;|&c;">]><r t="&a;&a;">&a;&c;</r>', "y|yy", "y|yy|y"),
+    ('<!DOCTYPE r [<!ENTITY b "&#65;&amp;"><!ENTITY a "[&b;&b;]">]><r t="&a;">&a;<k>&b;</k>&b;</r>', "[A&A&]A&A&", "[A&A&]"),
+    ('<!DOCTYPE r [<!ENTITY e "v">]><r t="&e;&e;&e;">&e;<![CDATA[&e;]]>&e;&#x41;</r>', "v&e;vA", "vvv"),
+]
